@@ -415,8 +415,8 @@ pub fn call_sil<F: linfa::Float>(form: usize, rec: Array2<F>, l: &[usize]) -> Re
 
 // ------------------------------------------------------------------ Pearson
 
-pub const PEARSON_FORMS: usize = 4;
-pub const PEARSON_FORM_NAMES: [&str; PEARSON_FORMS] = ["owned", "forder", "strided_view", "dataset_with_targets"];
+pub const PEARSON_FORMS: usize = 5;
+pub const PEARSON_FORM_NAMES: [&str; PEARSON_FORMS] = ["owned", "forder", "strided_view", "dataset_with_targets", "with_p_value"];
 
 /// `pearson_correlation` of the records through memory layout / container `form`
 pub fn call_pearson<F: linfa::Float>(form: usize, rec: Array2<F>) -> Vec<F> {
@@ -430,6 +430,15 @@ pub fn call_pearson<F: linfa::Float>(form: usize, rec: Array2<F>) -> Vec<F> {
         3 => {
             let n = rec.nrows();
             Dataset::new(rec, Array1::from((0..n).collect::<Vec<usize>>())).pearson_correlation().get_coeffs().to_vec()
+        }
+        4 => {
+            // the coefficients of the p-value entry point (the p-values themselves are a random
+            // resampling and not in the statement; they must be frequencies k/3 in [0, 1])
+            let p = rec.ncols();
+            let c = DatasetBase::from(rec).pearson_correlation_with_p_value(3);
+            let ok = c.get_p_values().map_or(p < 2, |pv| pv.iter().all(|v| { let k = v.to_f64().unwrap() * 3.0; (0.0..=3.0).contains(&k) && (k - k.round()).abs() < 1e-4 }));
+            assert!(ok, "p-values are not frequencies of 3 resamplings: {:?}", c.get_p_values());
+            c.get_coeffs().to_vec()
         }
         _ => unreachable!("pearson form"),
     }
